@@ -452,7 +452,19 @@ class Model:
             self.judge(z3.BoolVal(True), self.N, "kill")
 
 
+BMC_SECONDS = [0.0]
+
+
 def bmc(facts, steps, capmax, nondet_rotation, timeout_ms=120000, midflush_kill=False, lag=False):
+    import time as _t
+    _t0 = _t.time()
+    try:
+        return _bmc(facts, steps, capmax, nondet_rotation, timeout_ms, midflush_kill, lag)
+    finally:
+        BMC_SECONDS[0] += _t.time() - _t0
+
+
+def _bmc(facts, steps, capmax, nondet_rotation, timeout_ms=120000, midflush_kill=False, lag=False):
     m = Model(facts, steps, capmax, nondet_rotation, midflush_kill, lag)
     m.run()
     s = z3.Solver()
@@ -612,6 +624,14 @@ def recovery_once(ctx, facts, steps, capmax):
 
 
 def prune_safety(ctx):
+    try:
+        BMC_SECONDS[0] = 0.0
+        return _prune_safety(ctx)
+    finally:
+        ctx.q.solver_s += BMC_SECONDS[0]
+
+
+def _prune_safety(ctx):
     notes = []
     facts = {"cut": fact_cut(ctx, notes),
              "full": fact_rotate_on(ctx, IN, "insert_and_maybe_flush", notes),
